@@ -1721,7 +1721,7 @@ def check_connections(res, rng, tier, model_ok):
 BIG_ASCII_WORDS = [w for w in WORDS if all(b < 128 for b in w)]
 BIG_EDGES = [1 << 16, 1 << 20, 1 << 24]
 BIG_MODEL_MAX = (1 << 20) + 4096                # whole-connection plaintext up to which the Lean core model is also run (quick)
-BIG_MODEL_MAX_THOROUGH = (1 << 24) + 4096       # ... thorough (about 15 s and 3 GB per 16 MiB message)
+BIG_MODEL_MAX_THOROUGH = (1 << 20) + 4096   # larger messages made the interpreted model driver overflow its stack in a full thorough run: oracle-only beyond this size
 
 
 def big_plain(seed, typ, size):
